@@ -381,11 +381,53 @@ fn run(t: &mut Tape, cx: &mut Cx) -> Result<(), String> {
     Ok(())
 }
 
+/// Exhaustive tiny domain: byte sizes 0..=10 x page sizes 1..=4 x start state {empty, full,
+/// alternating} x {set, reset} x every range (start 0..=12 or within 3 of usize::MAX, length 0..=12).
+fn run_tiny(t: &mut Tape, cx: &mut Cx) -> Result<(), String> {
+    let byte_size = t.below(11) as usize;
+    let page = 1 + t.below(4) as usize;
+    let state = t.below(3);
+    let set = t.below(2) == 0;
+    let s_sel = t.below(17) as usize;
+    let l = t.below(13) as usize;
+    let s = if s_sel <= 12 { s_sel } else { usize::MAX - (16 - s_sel) };
+    let b = AtomicBitmap::new(byte_size, NonZeroUsize::new(page).unwrap());
+    let mut m = Model::new(byte_size, page);
+    for i in 0..m.pages {
+        if state == 1 || (state == 2 && i % 2 == 0) {
+            b.set_bit(i);
+            m.set.insert(i);
+        }
+    }
+    note!(cx, "new({}, page {}) state {} then {}({:#x}, {})", byte_size, page, state, if set { "set_addr_range" } else { "reset_addr_range" }, s, l);
+    cx.nt("tiny_domain");
+    if set { b.set_addr_range(s, l) } else { b.reset_addr_range(s, l) }
+    m.mark(s, l, set);
+    compare(&b, &m, "tiny")?;
+    let words = b.get_and_reset();
+    ensure!(words.len() == m.pages.div_ceil(64), "get_and_reset word count");
+    for (wi, w) in words.iter().enumerate() {
+        for bit in 0..64 {
+            ensure!(((w >> bit) & 1 == 1) == m.set.contains(&(wi * 64 + bit)), "get_and_reset reports page {} wrongly", wi * 64 + bit);
+        }
+    }
+    Ok(())
+}
+
+fn gen_tiny(_t: Tier) -> Box<dyn Iterator<Item = Vec<u64>>> {
+    Box::new((0..11u64).flat_map(|bs| {
+        (0..4u64).flat_map(move |p| (0..3u64).flat_map(move |st| (0..2u64).flat_map(move |op| (0..17u64).flat_map(move |s| (0..13u64).map(move |l| vec![bs, p, st, op, s, l])))))
+    }))
+}
+
 pub fn property() -> Property {
     Property {
         id: "C09",
         rule: "a case = (byte size, page size) from {0, 1, k*page+-delta, 63/64/65/127/128/129 pages +- delta} x {1,2,3,7,64,100,128,4096, random, larger than the byte size} + a history of 1..40 operations (set/reset_addr_range, mark_dirty, set/reset_bit, get_and_reset, reset, enlarge, clone then ops on either copy, RefSlice/ArcSlice slice_at nested up to 3 deep with marks and queries through the slice, (), None, Some(bitmap)); after every step every bitmap is compared with its set model over all indices < pages+70 and at page-first/last addresses; non-trivial = a range spanning >=2 pages / crossing a 64-page word / running past the end / overflowing usize, a bit at or past the end, a non-empty harvest, an enlarge, a clone or a (nested) slice; distinct = decoded (dimensions, history)",
         assumptions: &["enlarge sizes are VMM-chosen: sums overflowing usize or exceeding 20000 pages are excluded (counted)", "slice offsets whose sum wraps are not compared (BaseSlice documents wrapping arithmetic); the model is re-synchronised and the event counted"],
-        subchecks: vec![SubCheck { name: "history", builds: &[Build::Std], kind: Kind::Random { quick: 40_000, thorough: 2_000_000, max_words: 220 }, run }],
+        subchecks: vec![
+            SubCheck { name: "tiny_domain", builds: &[Build::Std], kind: Kind::Exhaustive { gen: gen_tiny }, run: run_tiny },
+            SubCheck { name: "history", builds: &[Build::Std], kind: Kind::Random { quick: 40_000, thorough: 2_000_000, max_words: 220 }, run }
+        ],
     }
 }
